@@ -213,4 +213,6 @@ class ListField(Field):
         """
         if self.field is None or isinstance(self.field, AnyField):
             return value
+        if isinstance(self.field, Field) and isinstance(value, (list, tuple)):
+            value = [self.field.to_python(cfg, item) for item in value]
         return ListProxy(cfg, self, value)
